@@ -182,7 +182,14 @@ def gen_bin(args):
         xa = np.array(x, float)
         # (equal weights must not change a mean: every third instance is given a constant weight vector)
         wkw = {'weights': np.full(len(xa), 3.0)} if (len(recs) % 3 == 2) else {}
-        if explicit:
+        if explicit == 'onedge':
+            # default edges of nb bins, units of half a bin: an even phi2 is EXACTLY the float of an edge (as the routine itself
+            # computes it), an odd one the centre of a bin; a sample on an edge belongs to the bin that starts there
+            nb = len(e2) - 1
+            edges, centres = emd.spectra.define_hist_bins(0, 2 * np.pi, nb)
+            phf = np.array([edges[p // 2] if p % 2 == 0 else centres[p // 2] for p in phi2], float)
+            o = core.guarded(emd.cycles.bin_by_phase, phf, xa[:, None], nbins=nb, **wkw)
+        elif explicit:
             o = core.guarded(emd.cycles.bin_by_phase, ph, xa[:, None], bin_edges=np.array(e2, float) / 2.0, **wkw)
         else:
             nb = len(e2) - 1
@@ -192,11 +199,11 @@ def gen_bin(args):
             continue
         avg = np.asarray(o[0], float)
         if avg.ndim == 0 or avg.shape[0] != len(e2) - 1:          # not one value per bin: recorded as such (the clause on the length fails)
-            recs.append({'kind': 'bin', 'phi2': list(phi2), 'x': list(x), 'e2': list(e2), 'out60': [-97] * (avg.shape[0] if avg.ndim else 0), 'explicit': int(explicit)})
+            recs.append({'kind': 'bin', 'phi2': list(phi2), 'x': list(x), 'e2': list(e2), 'out60': [-97] * (avg.shape[0] if avg.ndim else 0), 'explicit': int(explicit is True)})
             continue
         avg = avg.reshape(len(e2) - 1, -1)[:, 0]
         o60, ok = ints(avg, 60.0)
-        recs.append({'kind': 'bin', 'phi2': list(phi2), 'x': list(x), 'e2': list(e2), 'out60': o60 if ok else [-98], 'explicit': int(explicit)})
+        recs.append({'kind': 'bin', 'phi2': list(phi2), 'x': list(x), 'e2': list(e2), 'out60': o60 if ok else [-98], 'explicit': int(explicit is True), 'on_edges': int(explicit == 'onedge')})
     return recs
 
 
@@ -282,6 +289,10 @@ def run():
         for _ in range(ctx.pick(20, 200)):
             n = int(rng.randint(1, 7))
             bins.append((list(2 * rng.randint(0, 24, n) + 1), list(rng.randint(0, 7, n)), [2 * b * 24 // nb for b in range(nb + 1)], False))
+    for nb in (16, 32, 64, 24, 5):
+        for _ in range(ctx.pick(20, 200)):
+            n = int(rng.randint(1, 9))
+            bins.append((list(rng.randint(0, 2 * nb, n)), list(rng.randint(0, 7, n)), [2 * b for b in range(nb + 1)], 'onedge'))
     with mp.Pool(core.NCPU) as pool:
         recs = [r for rs in pool.imap_unordered(gen_stat, [items[i:i + 300] for i in range(0, len(items), 300)]) for r in rs]
         na = ctx.pick(160, 1600)
